@@ -21,8 +21,11 @@ const rule = "SQLite (current, desired) pairs on a real engine, biased to revers
 
 var reversibleKinds = []string{"add-table", "drop-table", "add-index", "drop-index", "add-column", "add-index", "add-table"}
 
-func genCase(t *rapid.T) Case {
-	o := model.Opts{NoInlineUnique: true, WordNames: true}
+func genCaseInlineUnique(t *rapid.T) Case { return genCaseOpts(t, model.Opts{WordNames: true, NoExprIndex: true}) }
+
+func genCase(t *rapid.T) Case { return genCaseOpts(t, model.Opts{NoInlineUnique: true, WordNames: true}) }
+
+func genCaseOpts(t *rapid.T, o model.Opts) Case {
 	c := Case{A: model.GenSchema(t, 3, o), Route: rapid.IntRange(0, 1).Draw(t, "route")}
 	if rapid.IntRange(0, 9).Draw(t, "biased") < 7 {
 		o.Kinds = reversibleKinds
@@ -68,10 +71,17 @@ func TestCheck(t *testing.T) {
 	if !ev.Rapid(t, col, "engine-up-down", col.N(4000, 600000), genCase, mkCheck(col), known) {
 		return
 	}
+	if !ev.Rapid(t, col, "engine-up-down-inline-unique", col.N(1000, 100000), genCaseInlineUnique, mkCheck(col), known) {
+		return
+	}
 	runDownFiles(t, col)
 }
 
 func TestReplay(t *testing.T) {
+	if ev.ReplaySub() == "downfiles-dialects" {
+		ev.ReplayFile(t, "C17", func(_ string, c GCase) error { _, err := checkDialectDown(c); return err })
+		return
+	}
 	if strings.HasPrefix(ev.ReplaySub(), "downfiles") {
 		ev.ReplayFile(t, "C17", func(_ string, c DCase) error { _, err := checkDown(c); return err })
 		return
